@@ -696,10 +696,18 @@ class Evaluator:
                 it = self.known_items(base[2])
                 if it is not None and -len(it) <= i < len(it):
                     return self.stack(base[1], it[i])
+                if base[2][0] == "ifexp":
+                    inner = self.index(base[2], idx)
+                    if inner != ("idx", base[2], idx):
+                        return self.stack(base[1], inner)
             if h == "lanes":
                 it = self.known_items(base[2])
                 if it is not None and -len(it) <= i < len(it):
                     return ("lanes", base[1], it[i])
+                if base[2][0] == "ifexp":
+                    inner = self.index(base[2], idx)
+                    if inner != ("idx", base[2], idx):
+                        return ("lanes", base[1], inner)
             if h in ("elem", "lane", "leaf"):
                 tree = base[2]
                 it = self.known_items(tree)
@@ -722,7 +730,7 @@ class Evaluator:
             return ("rest", base, idx[1][1])
         if h == "ifexp" and base[2] != NORET and base[3] != NORET:
             a, b = self.index(base[2], idx), self.index(base[3], idx)
-            if a[0] != "idx" or b[0] != "idx":
+            if a != ("idx", base[2], idx) or b != ("idx", base[3], idx):
                 return ("ifexp", base[1], a, b)
         return ("idx", base, idx)
 
@@ -965,7 +973,7 @@ class Evaluator:
                 it = self.known_items(args[0])
                 if it is not None:
                     return ("tuple", tuple(it))
-                if args[0][0] in ("rest", "param"):
+                if args[0][0] in ("rest",) or (args[0][0] == "param" and args[0][1] in ("args",)):
                     return args[0]
             if nm == "builtins.list" and len(args) == 1:
                 it = self.known_items(args[0])
